@@ -212,6 +212,32 @@ fn main() {
                 let roots: Vec<Value> = vec![flags.left_shift().to_json(), flags.right_shift().to_json(), flags.overflow().to_json()];
                 out.push(json!({"name": job["name"], "roots": roots, "arena": arena_json()}));
             }
+            "binding" => {
+                // native oracle for C02: does altering one element of the statement change the set of
+                // boundary assertions (main segment, and auxiliary segment for fixed challenges)?
+                let ins = u64s(&job["inputs"]);
+                let outs = u64s(&job["outputs"]);
+                let ovf = u64s(&job["overflow_addrs"]);
+                let dump = |i: &[u64], o: &[u64], a: &[u64]| -> Vec<String> {
+                    let air = make_air(i, o, a, 64);
+                    let mut v: Vec<String> = air
+                        .get_assertions()
+                        .iter()
+                        .map(|x| format!("m:{}:{}:{}", x.column(), x.first_step(), x.values()[0]))
+                        .collect();
+                    let mut are = winter_air::AuxTraceRandElements::<Felt>::new();
+                    are.add_segment_elements((0..trace::AUX_TRACE_RAND_ELEMENTS).map(|k| Felt::new(0x9e3779b97f4a7c15u64.wrapping_mul(k as u64 + 3) % 0xffffffff00000001)).collect());
+                    v.extend(air.get_aux_assertions(&are).iter().map(|x| format!("a:{}:{}:{}", x.column(), x.first_step(), x.values()[0])));
+                    v
+                };
+                let base = dump(&ins, &outs, &ovf);
+                let mut unbound: Vec<String> = Vec::new();
+                let bump = |v: &[u64], k: usize| -> Vec<u64> { let mut w = v.to_vec(); w[k] = (w[k] + 1) % 0xffffffff00000001; w };
+                for k in 0..ins.len() { if dump(&bump(&ins, k), &outs, &ovf) == base { unbound.push(format!("input {k}")); } }
+                for k in 0..outs.len() { if dump(&ins, &bump(&outs, k), &ovf) == base { unbound.push(format!("output {k}")); } }
+                for k in 0..ovf.len() { if dump(&ins, &outs, &bump(&ovf, k)) == base { unbound.push(format!("overflow address {k}")); } }
+                out.push(json!({"status": "ok", "assertions": base.len(), "unbound": unbound}));
+            }
             "aux_transition" => {
                 arena_reset();
                 let mut cur: Vec<Sym> = (0..w).map(|i| Sym::var(&format!("c{i}"))).collect();
